@@ -95,6 +95,18 @@ def dead_decorator_configs():
                     yield {"parameters": {"p": 1}, "services": svcs, "decorators": [{"tag": tag, "decorator": "fx.Dec1", "arguments": dargs}]}
 
 
+def concat_name_configs():
+    """service (and parameter, tag) names chosen so that different (from, to) pairs concatenate to the same text: edges are
+    pairs, not strings"""
+    fxs = lambda args: {"constructor": "fx.NewA", "arguments": args}
+    yield {"services": {"user": fxs(["@repocache"]), "repocache": fxs([]), "userrepo": fxs(["@cache"]), "cache": fxs(["@userrepo"])}}
+    yield {"services": {"a": fxs(["@bc"]), "bc": fxs([]), "ab": fxs(["@c"]), "c": fxs(["@ab"])}}
+    yield {"services": {"ab": fxs(["@c"]), "c": fxs([]), "a": fxs(["@bc"]), "bc": fxs(["@a"])}}
+    yield {"services": {"a": fxs(["!tagged bc"]), "x": dict(fxs([]), tags=["bc"]), "ab": fxs(["!tagged c"]), "y": dict(fxs(["@ab"]), tags=["c"])}}
+    yield {"parameters": {"a": "%bc%", "bc": "1", "ab": "%c%", "c": "%ab%"}, "services": {"s": fxs(["%a%"])}}
+    yield {"services": {"user": fxs(["@repocache"]), "repocache": fxs([]), "userrepo": fxs(["@cache"]), "cache": fxs([])}}
+
+
 def param_configs():
     names = ["p0", "p1", "p2"]
     for masks in itertools.product(range(8), repeat=3):
@@ -132,11 +144,11 @@ def run(ctx, nrand=None):
     if ctx.quick:
         cases += list(small_configs(2, 1, True))
         cases += list(itertools.islice(param_configs(), 0, 512, 3))
-        cases += list(dead_decorator_configs())
+        cases += list(dead_decorator_configs()) + list(concat_name_configs())
         nrand = nrand or 1500
     else:
         cases += list(small_configs(2, 1, True)) + list(small_configs(2, 2, False)) + list(param_configs())
-        cases += list(itertools.islice(small_configs(3, 1, True), 0, None, 7)) + list(dead_decorator_configs())
+        cases += list(itertools.islice(small_configs(3, 1, True), 0, None, 7)) + list(dead_decorator_configs()) + list(concat_name_configs())
         nrand = nrand or 20000
     cases += [random_graph(ctx.rng) for _ in range(nrand)]
     cases += [gen.gen_config_wild(ctx.rng) for _ in range(nrand // 2)]
